@@ -1,5 +1,323 @@
 //! Translator targets owned by property C07.
+//!
+//!  * `C07Facts.lean`: the decision structure of the type checker's operator,
+//!    assignment, match, unification and declaration logic, read off the
+//!    source of src/typechecker/{expr,mod,scope}.rs:
+//!      - the arms of the final `match op` of `TypeChecker::binop` (operators,
+//!        whether the expression is unified with `bool`, whether the operands
+//!        are checked against `bool` or against a fresh variable, which
+//!        predicate guards the left operand), and the special cases tried
+//!        first (`IpAddr / u8`, String `+`, List `+`);
+//!      - what `Negate`, `Not`, `Assign`, `CompoundAssign` test;
+//!      - the predicates of the `IntVar × Name` and `FloatVar × Name` arms of
+//!        `unify_inner`;
+//!      - the tests of `match_expr` and of `insert_declaration`.
+//!    The Lean models in `Model/TcRules.lean` / `Model/Unify.lean` are
+//!    *parameterised* by these facts, so a changed arm is a changed Lean
+//!    definition and the theorems are re-checked against it.
 #[allow(unused_imports)]
 use super::{Gen, Target};
+use crate::find;
+use quote::ToTokens;
+use std::path::Path;
 
-pub const TARGETS: &[Target] = &[];
+pub const TARGETS: &[Target] = &[("c07facts", "C07Facts", c07facts as Gen)];
+
+fn norm(t: impl ToTokens) -> String {
+    t.to_token_stream().to_string().replace([' ', '\n'], "")
+}
+
+fn lean_op(name: &str) -> Result<&'static str, String> {
+    Ok(match name {
+        "Add" => ".add",
+        "Sub" => ".sub",
+        "Mul" => ".mul",
+        "Div" => ".div",
+        "Mod" => ".mod",
+        "Eq" => ".eq",
+        "Ne" => ".ne",
+        "Lt" => ".lt",
+        "Le" => ".le",
+        "Gt" => ".gt",
+        "Ge" => ".ge",
+        "And" => ".and",
+        "Or" => ".or",
+        other => return Err(format!("unknown binary operator `{other}` in binop")),
+    })
+}
+
+fn pat_idents(p: &syn::Pat, out: &mut Vec<String>) -> Result<(), String> {
+    match p {
+        syn::Pat::Or(o) => {
+            for c in &o.cases {
+                pat_idents(c, out)?;
+            }
+            Ok(())
+        }
+        syn::Pat::Ident(i) => {
+            out.push(i.ident.to_string());
+            Ok(())
+        }
+        syn::Pat::Path(p) => {
+            out.push(p.path.segments.last().unwrap().ident.to_string());
+            Ok(())
+        }
+        other => Err(format!("unsupported operator pattern `{}`", norm(other))),
+    }
+}
+
+/// the constructor names of a pattern like `(IntVar(b, s), Name(name)) | (Name(name), IntVar(b, s))`:
+/// one pair per alternative, sorted — so neither the order of the alternatives
+/// nor the names of the bound variables matter
+fn ctor_pairs(p: &syn::Pat) -> Vec<(String, String)> {
+    fn head(p: &syn::Pat) -> String {
+        match p {
+            syn::Pat::TupleStruct(t) => t.path.segments.last().map(|s| s.ident.to_string()).unwrap_or_default(),
+            syn::Pat::Path(t) => t.path.segments.last().map(|s| s.ident.to_string()).unwrap_or_default(),
+            syn::Pat::Ident(i) => match &i.subpat {
+                Some((_, sub)) => head(sub),
+                None => {
+                    // a bare identifier: a constructor such as `Never`, or a binder
+                    let n = i.ident.to_string();
+                    if n.chars().next().map(|c| c.is_uppercase()).unwrap_or(false) { n } else { "_".into() }
+                }
+            },
+            syn::Pat::Reference(r) => head(&r.pat),
+            _ => "_".into(),
+        }
+    }
+    let mut out = Vec::new();
+    let alts: Vec<&syn::Pat> = match p {
+        syn::Pat::Or(o) => o.cases.iter().collect(),
+        other => vec![other],
+    };
+    for a in alts {
+        if let syn::Pat::Tuple(t) = a {
+            if t.elems.len() == 2 {
+                out.push((head(&t.elems[0]), head(&t.elems[1])));
+            }
+        }
+    }
+    out.sort();
+    out
+}
+
+/// the text between `start` and the matching close of the brace that `start` ends with
+fn braced_after<'a>(s: &'a str, start: &str) -> Option<&'a str> {
+    let i = s.find(start)? + start.len();
+    let bytes = s.as_bytes();
+    let mut depth = 1;
+    let mut j = i;
+    while j < bytes.len() {
+        match bytes[j] {
+            b'{' => depth += 1,
+            b'}' => {
+                depth -= 1;
+                if depth == 0 {
+                    return Some(&s[i..j]);
+                }
+            }
+            _ => {}
+        }
+        j += 1;
+    }
+    None
+}
+
+fn b(x: bool) -> &'static str {
+    if x { "true" } else { "false" }
+}
+
+fn pred_name(p: &str) -> Result<&'static str, String> {
+    Ok(match p {
+        "is_int" => ".isInt",
+        "is_signed_int" => ".isSignedInt",
+        "is_float" => ".isFloat",
+        other => return Err(format!("unknown TypeDefinition predicate `{other}` in unify_inner")),
+    })
+}
+
+/// `type_def.<pred>()` right after `prefix`
+fn pred_after(s: &str, prefix: &str) -> Option<String> {
+    let i = s.find(prefix)? + prefix.len();
+    let rest = &s[i..];
+    let j = rest.find("()")?;
+    let name = &rest[..j];
+    if name.chars().all(|c| c.is_ascii_alphanumeric() || c == '_') { Some(name.to_string()) } else { None }
+}
+
+fn c07facts(repo: &Path) -> Result<String, String> {
+    let expr_rs = find::parse(repo, "src/typechecker/expr.rs")?;
+    let mod_rs = find::parse(repo, "src/typechecker/mod.rs")?;
+    let scope_rs = find::parse(repo, "src/typechecker/scope.rs")?;
+    let mut out = String::new();
+    out.push_str("/- GENERATED by /verif/extract from src/typechecker/expr.rs, mod.rs, scope.rs — do not edit. -/\nimport RotoV.Model.Typing\nnamespace RotoV.Gen.C07Facts\nopen RotoV.Typing\n\n");
+    out.push_str("/-- which predicate must hold of the (resolved) left operand -/\ninductive Guard | none | numeric | int\n  deriving DecidableEq, Repr\n\n");
+    out.push_str("/-- one arm of the final `match op` of `TypeChecker::binop` -/\nstructure OpArm where\n  ops : List BinOp\n  /-- the expression's type is unified with `bool` (otherwise with the operands' type) -/\n  resultBool : Bool\n  /-- both operands are checked against `bool` (otherwise: left against a fresh variable, right against the left's type) -/\n  operandsBool : Bool\n  guard : Guard\n  deriving Repr\n\n");
+
+    // ---- binop
+    let binop = find::func(&expr_rs, "binop", Some("TypeChecker"))?;
+    let ms = find::matches_on(&binop.block, "op");
+    if ms.len() != 1 {
+        return Err(format!("expected one `match op` in binop, found {}", ms.len()));
+    }
+    let mut arms = Vec::new();
+    for arm in &ms[0].arms {
+        if arm.guard.is_some() {
+            return Err("guarded arm in binop's `match op`".into());
+        }
+        let mut names = Vec::new();
+        pat_idents(&arm.pat, &mut names)?;
+        let ops: Vec<&str> = names.iter().map(|n| lean_op(n)).collect::<Result<_, _>>()?;
+        let body = norm(&arm.body);
+        // what the expression's type is unified with: `bool`, or a local variable
+        // holding the operands' type (whatever it is called)
+        let result_bool = body.contains("self.unify(&ctx.expected_type,&Type::bool(),span,None)?");
+        let result_operand = body.match_indices("self.unify(&ctx.expected_type,&").any(|(i, m)| {
+            let rest = &body[i + m.len()..];
+            let name: String = rest.chars().take_while(|c| c.is_ascii_alphanumeric() || *c == '_').collect();
+            !name.is_empty() && rest[name.len()..].starts_with(",span,None)?")
+        });
+        if result_bool == result_operand {
+            return Err(format!("arm {names:?} of binop: cannot tell what the expression's type is unified with"));
+        }
+        let operands_bool = body.contains("letctx=ctx.with_type(Type::bool());");
+        let numeric = body.contains("ifself.type_info.is_numeric_type(&");
+        let int = body.contains("ifself.type_info.is_int_type(&");
+        if numeric && int {
+            return Err(format!("arm {names:?} of binop tests both is_numeric_type and is_int_type"));
+        }
+        if (numeric || int) && !(body.contains("}else{Err(self.error_expected_numeric_value(") || body.contains("}else{Err(self.error_expected_int_value(")) {
+            return Err(format!("arm {names:?} of binop: the guard's else branch is not an error"));
+        }
+        // both operands must be checked
+        if body.matches("self.expr(scope,&").count() < 1 {
+            return Err(format!("arm {names:?} of binop does not check its operands"));
+        }
+        let guard = if numeric { ".numeric" } else if int { ".int" } else { ".none" };
+        arms.push(format!("  ⟨[{}], {}, {}, {guard}⟩", ops.join(", "), b(result_bool), b(operands_bool)));
+    }
+    out.push_str("/-- the arms of `match op` in source order -/\ndef binopArms : List OpArm := [\n");
+    out.push_str(&arms.join(",\n"));
+    out.push_str("\n]\n\n");
+    // special cases tried before the match
+    let whole = norm(&binop.block);
+    let div = braced_after(&whole, "ifletDiv=op{").ok_or("binop: no `if let Div = op` block")?;
+    let div_special = div.contains("ifType::ip_addr()==resolved{")
+        && div.contains("letctx_right=ctx.with_type(Type::u8());")
+        && div.contains("self.unify(&ctx.expected_type,&Type::prefix(),span,None)?");
+    let add = braced_after(&whole, "ifletAdd=op{").ok_or("binop: no `if let Add = op` block")?;
+    let add_string = add.contains("ifType::string()==resolved{") && add.contains("self.unify(&ctx.expected_type,&Type::string(),span,None)?");
+    let add_list = add.contains("ifn.name==list_name{") && add.contains("ident:\"List\".into()") && add.contains("self.unify(&ctx.expected_type,&var,span,None)?");
+    out.push_str(&format!("/-- `IpAddr / u8` builds a `Prefix` (tried before the general arms) -/\ndef divIpPrefix : Bool := {}\n", b(div_special)));
+    out.push_str(&format!("/-- `String + String` appends -/\ndef addString : Bool := {}\n", b(add_string)));
+    out.push_str(&format!("/-- `List[T] + List[T]` concatenates -/\ndef addList : Bool := {}\n\n", b(add_list)));
+
+    // ---- Negate / Not / Assign / CompoundAssign arms of `TypeChecker::expr`
+    let expr_fn = find::func(&expr_rs, "expr", Some("TypeChecker"))?;
+    let em = find::matches_on(&expr_fn.block, "&expr.node");
+    if em.len() != 1 {
+        return Err(format!("expected one `match &expr.node` in expr, found {}", em.len()));
+    }
+    let neg = norm(&find::arm_for(&em[0], "Negate")?.body);
+    let negate_rejects_unsigned = neg.contains("IntKind::Unsigned") && neg.contains("ifis_unsigned{returnErr(");
+    let negate_requires_numeric = neg.contains("ifself.type_info.is_numeric_type(&operand_ty){") && neg.contains("}else{Err(self.error_expected_numeric_value(");
+    let negate_marks_signed = neg.contains("ifletType::IntVar(i,MustBeSigned::No)=&operand_ty{") && neg.contains("Type::IntVar(*i,MustBeSigned::Yes)");
+    let not = norm(&find::arm_for(&em[0], "Not")?.body);
+    let not_bool = not.contains("self.unify(&ctx.expected_type,&Type::bool(),id,None)?") && not.contains("self.expr(scope,&ctx.with_type(Type::bool()),e)");
+    let local_test = "ifpath_value.kind!=ValueKind::Local{returnErr(";
+    let assign = norm(&find::arm_for(&em[0], "Assign")?.body);
+    let cassign = norm(&find::arm_for(&em[0], "CompoundAssign")?.body);
+    out.push_str(&format!("def negateRejectsUnsigned : Bool := {}\ndef negateRequiresNumeric : Bool := {}\ndef negateMarksSigned : Bool := {}\ndef notOperandBool : Bool := {}\n", b(negate_rejects_unsigned), b(negate_requires_numeric), b(negate_marks_signed), b(not_bool)));
+    out.push_str(&format!("/-- `Assign` rejects a path whose root is not a local variable -/\ndef assignRequiresLocal : Bool := {}\ndef compoundAssignRequiresLocal : Bool := {}\n\n", b(assign.contains(local_test)), b(cassign.contains(local_test))));
+
+    // ---- unify_inner
+    let unify = find::func(&mod_rs, "unify_inner", Some("TypeChecker"))?;
+    let um = find::matches_on(&unify.block, "(a,b)");
+    if um.len() != 1 {
+        return Err(format!("expected one `match (a, b)` in unify_inner, found {}", um.len()));
+    }
+    let mut int_arm = None;
+    let mut float_arm = None;
+    let mut never_arms = 0;
+    let mut pats = Vec::new();
+    for arm in &um[0].arms {
+        let p = norm(&arm.pat);
+        let pairs = ctor_pairs(&arm.pat);
+        let is = |x: &str, y: &str| pairs == vec![(x.to_string(), y.to_string()), (y.to_string(), x.to_string())];
+        if is("IntVar", "Name") {
+            int_arm = Some(norm(&arm.body));
+        }
+        if is("FloatVar", "Name") {
+            float_arm = Some(norm(&arm.body));
+        }
+        if pairs.iter().any(|(a, b)| (a == "Never") != (b == "Never")) && arm.guard.is_none() {
+            never_arms += 1;
+        }
+        pats.push(p);
+    }
+    // the never type: is there an arm that lets `Never` unify with anything inside
+    // `unify_inner` (i.e. also in nested positions, in both directions)?
+    let never_arm = never_arms > 0;
+    let int_arm = int_arm.ok_or("unify_inner: IntVar × Name arm not found")?;
+    let float_arm = float_arm.ok_or("unify_inner: FloatVar × Name arm not found")?;
+    let args_test = "if!name.arguments.is_empty(){returnNone;}";
+    let (yes, no) = if let Some(y) = pred_after(&int_arm, "letcorrect=ifs==MustBeSigned::Yes{type_def.") {
+        let n = pred_after(&int_arm, "}else{type_def.").ok_or("unify_inner: IntVar arm: no else predicate")?;
+        (y, n)
+    } else if let Some(p) = pred_after(&int_arm, "letcorrect=type_def.") {
+        (p.clone(), p)
+    } else {
+        return Err("unify_inner: IntVar × Name arm: cannot find the predicate that decides `correct`".into());
+    };
+    if !int_arm.contains("if!correct{returnNone;}") {
+        return Err("unify_inner: IntVar × Name arm does not reject when `correct` is false".into());
+    }
+    let fpred = pred_after(&float_arm, "if!type_def.").ok_or("unify_inner: FloatVar × Name arm: no predicate")?;
+    out.push_str("/-- predicates of `TypeDefinition` the unification arms ask -/\ninductive Pred | isInt | isSignedInt | isFloat\n  deriving DecidableEq, Repr\n\n");
+    out.push_str(&format!("/-- `IntVar(_, MustBeSigned::Yes)` × `Name`: the named type must satisfy … -/\ndef intVarYesPred : Pred := {}\n/-- `IntVar(_, MustBeSigned::No)` × `Name` -/\ndef intVarNoPred : Pred := {}\ndef intVarRejectsArgs : Bool := {}\n", pred_name(&yes)?, pred_name(&no)?, b(int_arm.contains(args_test))));
+    out.push_str(&format!("def floatVarPred : Pred := {}\ndef floatVarRejectsArgs : Bool := {}\n", pred_name(&fpred)?, b(float_arm.contains(args_test))));
+    let uints = find::func(&mod_rs, "unify_intvars", Some("TypeChecker"))?;
+    let ui = norm(&uints.block);
+    let yes_priority = ui.contains("ifa_signed==MustBeSigned::Yes&&b_signed==MustBeSigned::No{self.type_info.unionfind.set(b,Type::IntVar(a,a_signed));Type::IntVar(a,a_signed)}else{self.type_info.unionfind.set(a,Type::IntVar(b,b_signed));Type::IntVar(b,b_signed)}");
+    out.push_str(&format!("/-- `unify_intvars`: `Yes` has priority over `No` (b ↦ a exactly when a is Yes and b is No, else a ↦ b) -/\ndef intVarsYesPriority : Bool := {}\n", b(yes_priority)));
+    out.push_str(&format!("/-- number of arms of `match (a, b)` -/\ndef unifyArmCount : Nat := {}\n", pats.len()));
+    let unify_fn = find::func(&mod_rs, "unify", Some("TypeChecker"))?;
+    let ub = norm(&unify_fn.block);
+    let found_never = ub.starts_with("{ifletType::Never=self.resolve_type(b){returnOk(self.resolve_type(a));}");
+    out.push_str(&format!("/-- `unify_inner` has the arm `(Never, x) | (x, Never) => x` (never unifies with anything, both ways, also nested) -/\ndef unifyInnerNeverArm : Bool := {}\n/-- `unify(expected, found)` accepts a found `!` for any expected type before calling `unify_inner` -/\ndef unifyFoundNeverFitsAll : Bool := {}\n\n", b(never_arm), b(found_never)));
+
+    // ---- match_expr
+    let mexpr = find::func(&expr_rs, "match_expr", Some("TypeChecker"))?;
+    let mb = norm(&mexpr.block);
+    let after_default = mb.contains("ifdefault_arm{returnErr(self.error_unreachable_expression(body));}");
+    let exhaustive = mb.contains("if!default_arm&&used_variants.len()<variants.len(){");
+    let guarded_not_used = mb.contains("ifletSome(guard)=guard{letctx=ctx.with_type(Type::bool());self.expr(arm_scope,&ctx,guard)?;}elseif!variant_already_used{used_variants.push(variant.node);}");
+    let wild_default = mb.contains("ifletSome(guard)=guard{letctx=ctx.with_type(Type::bool());self.expr(arm_scope,&ctx,guard)?;}else{default_arm=true;}");
+    let duplicate_is_error = !mb.contains("ifvariant_already_used{println!(");
+    out.push_str(&format!("def matchRejectsAfterDefault : Bool := {}\ndef matchCountsUsedVariants : Bool := {}\ndef matchGuardedArmNotUsed : Bool := {}\ndef matchUnguardedWildIsDefault : Bool := {}\n/-- a repeated variant is an error (on this tree: only a printed warning) -/\ndef matchDuplicateVariantIsError : Bool := {}\n\n", b(after_default), b(exhaustive), b(guarded_not_used), b(wild_default), b(duplicate_is_error)));
+
+    // ---- insert_declaration and its callers
+    let ins = find::func(&scope_rs, "insert_declaration", Some("ScopeGraph"))?;
+    let ib = norm(&ins.block);
+    let occupied = ib.contains("Entry::Occupied(entry)=>{letold=entry.into_mut();ifupdate_if(&old.kind){old.kind=kind;Ok(old)}else{Err(old.id)}}");
+    let vacant = ib.contains("Entry::Vacant(entry)=>{");
+    out.push_str(&format!("/-- `insert_declaration`: an occupied entry is replaced only if `update_if(old)`, else `Err` -/\ndef insertOccupiedAsksUpdateIf : Bool := {}\ndef insertVacantInserts : Bool := {}\n", b(occupied), b(vacant)));
+    let never = |name: &str| -> Result<bool, String> {
+        let f = find::func(&scope_rs, name, Some("ScopeGraph"))?;
+        Ok(norm(&f.block).contains("|_|false"))
+    };
+    out.push_str(&format!("/-- `insert_var` / `insert_module` never replace an existing declaration -/\ndef insertVarNeverUpdates : Bool := {}\ndef insertModuleNeverUpdates : Bool := {}\n", b(never("insert_var")?), b(never("insert_module")?)));
+    let stub_only = |name: &str, needle: &str| -> Result<bool, String> {
+        let f = find::func(&scope_rs, name, Some("ScopeGraph"))?;
+        Ok(norm(&f.block).contains(needle))
+    };
+    out.push_str(&format!(
+        "/-- `insert_const` / `insert_function` / `insert_method` replace only their own forward stub -/\ndef insertConstUpdatesStubOnly : Bool := {}\ndef insertFunctionUpdatesStubOnly : Bool := {}\ndef insertMethodUpdatesStubOnly : Bool := {}\n",
+        b(stub_only("insert_const", "matches!(kind,DeclarationKind::Value(ValueKind::Constant,None))")?),
+        b(stub_only("insert_function", "matches!(kind,DeclarationKind::Function(None))")?),
+        b(stub_only("insert_method", "matches!(kind,DeclarationKind::Method(None))")?),
+    ));
+    out.push_str("\nend RotoV.Gen.C07Facts\n");
+    Ok(out)
+}
